@@ -10,6 +10,7 @@
   facts about which oracle answer ends up in which output.
 -/
 import Alpaqa.Proofs.ZerofprInv
+import Alpaqa.Proofs.ZerofprExample
 
 namespace Alpaqa.Props.C03_Zerofpr
 open Alpaqa Alpaqa.Zerofpr Alpaqa.Gen
@@ -132,8 +133,24 @@ theorem zerofpr_x_out_is_final_xhat (P : Problem α) (dir : Direction D α) (d0 
       simp only [] at hw ⊢
       exact ⟨_, rfl, by simp [hw], by simp [hw]⟩
 
-/-! ### Non-vacuity: a concrete one-dimensional instance over `Nat`-free data is exercised by the
-    replay (`checks/loop_zerofpr.py`); here: the contract's hypotheses are satisfiable. -/
-example : (∀ (r : Result Nat Unit), r.wrote = false → r.wrote = false) := fun _ h => h
+/-! ### Non-vacuity: a concrete solve over `ℚ` (`Proofs/ZerofprExample.lean`), kernel-evaluated -/
+section examples
+open Alpaqa.Zerofpr.Example
+
+/-- interrupted inside the first line search: the hypothesis `fuelOut = false` holds, the outputs
+    are overwritten with `x̂₀ = 1 ∈ C`, `ŷ(x̂₀) = 1`, `err_z = (1 − 5)/2`. -/
+example : (exRun stopAt9).fuelOut = false ∧ (exRun stopAt9).wrote = true ∧
+    (exRun stopAt9).stats.status = SolverStatus.Interrupted ∧
+    (exRun stopAt9).x = [1] ∧ (exRun stopAt9).y = [1] ∧ (exRun stopAt9).errz = [-2] := by
+  decide +kernel
+
+/-- out of iterations with `always_overwrite_results = false`: untouched. -/
+example : (exRun (fun _ => false)).fuelOut = false ∧ (exRun (fun _ => false)).wrote = false ∧
+    (exRun (fun _ => false)).stats.status = SolverStatus.MaxIter ∧
+    (exRun (fun _ => false)).x = [3] ∧ (exRun (fun _ => false)).y = [5] ∧
+    (exRun (fun _ => false)).errz = [7] := by
+  decide +kernel
+
+end examples
 
 end Alpaqa.Props.C03_Zerofpr
